@@ -489,12 +489,14 @@ class ArgumentParser:
         # Directories specified with -isystem are searched after all
         # directories specified with -I, and -I is ignored for a directory
         # that is also specified with -isystem.
-        # (compared as directories: "inc", "inc/" and "./inc" are the same)
-        system_dirs = {os.path.normpath(p) for p in args.system_include_paths}
+        # (compared as directories: "inc", "inc/" and "./inc" are the same;
+        # ".." is left alone, "link/.." need not be ".")
+        def directory(p):
+            return p if ".." in p.split(os.sep) else os.path.normpath(p)
+
+        system_dirs = {directory(p) for p in args.system_include_paths}
         args.include_paths = [
-            p
-            for p in args.include_paths
-            if os.path.normpath(p) not in system_dirs
+            p for p in args.include_paths if directory(p) not in system_dirs
         ] + args.system_include_paths
 
         # Construct final list of active modes, in command-line order:
